@@ -36,10 +36,20 @@ Fixpoint after_scheme (u : bytes) : option bytes :=
   | c :: r => if (97 <=? c) && (c <=? 122) then after_scheme r else None
   | [] => None
   end.
+(* ... and whose authority part (up to the first '/', '?' or '#') has no user information and at most a
+   numeric port: url.Parse refuses "foo://:ar" (a byte mutation of foo://bar) for its port *)
+Fixpoint host_part (r : bytes) : bytes :=
+  match r with
+  | c :: r' => if (c =? 47) || (c =? 63) || (c =? 35) then [] else c :: host_part r'
+  | [] => []
+  end.
+Definition authority_ok (h : bytes) : bool :=
+  negb (existsb (N.eqb 64) h) &&
+  match split_at 58 h with Some (_, p) => forallb (fun c => (48 <=? c) && (c <=? 57)) p | None => true end.
 Definition specified_url (u : bytes) : bool :=
   match u with
   | [] => true
-  | _ => forallb plain_url_char u && match after_scheme u with Some (_ :: _) => true | _ => false end
+  | _ => forallb plain_url_char u && match after_scheme u with Some (c :: r) => authority_ok (host_part (c :: r)) | _ => false end
   end.
 Definition urls_specified (bs : bytes) : bool :=
   match decode_btor bs with
